@@ -313,7 +313,7 @@ namespace avel {
 
         [[nodiscard]]
         AVEL_FINL Vector operator-() const {
-            return Vector{0.0f} - *this;
+            return Vector{_mm512_castsi512_ps(_mm512_xor_si512(_mm512_castps_si512(content), _mm512_set1_epi32(0x80000000)))};
         }
 
         //=================================================
